@@ -714,6 +714,12 @@ class Rectangle(Shape):
         min_y = min(self._lower_coord.imag, self._upper_coord.imag)
         max_y = max(self._lower_coord.imag, self._upper_coord.imag)
 
+        if self.rotation != 0:
+            # The rectangle is rotated around its center. Undo that rotation
+            # for the point so that it can be compared with the non-rotated
+            # corners.
+            point = self.pos + Shape.calc_rotated_pos(point - self.pos,
+                                                      -self.rotation)
         point_x = point.real
         point_y = point.imag
         if point_x < min_x:
